@@ -9,9 +9,10 @@
     FragmentsOnCompositeTypesChecker→ type conditions are known composite types                        (`selOk` inline, `fragsOk`)
     KnownFragmentNamesChecker       → spread fragments exist                                           (`selOk` spread)
     UniqueFragmentNamesChecker      → `fragsUnique`
-  Still on the run-time tie (`RuntimeTie`): `@skip/@include` conditions are Boolean literals or defined variables with a
-  value (ValuesOfCorrectType, VariablesInAllowedPosition, NoUndefinedVariables, KnownDirectives + variable coercion);
-  `fragsAcyclic` (NoFragmentCyclesChecker has no `rule_*_iff` yet); operations have a root object type; no `__schema` /
+  NO LONGER a premise: the `@skip/@include` conditions. A condition that is not a Boolean at run time (`if: [true]`,
+  which ValuesOfCorrectType lets through — V8; a nullable variable with a default bound to `null`) is a modelled outcome
+  since 4e87d3d: a field error at the enclosing field, `data = null` for the root selection set.
+  Still on the run-time tie (`RuntimeTie`): `fragsAcyclic` (NoFragmentCyclesChecker has no `rule_*_iff` yet); operations have a root object type; no `__schema` /
   `__type` selections (introspection is C15's); `MergeSafe` (OverlappingFieldsCanBeMerged).
 -/
 import PyGqlModel.Spec.ValidDoc
@@ -99,18 +100,6 @@ def NLocal (s : SchemaD) (d : Validate.Doc) (n : Node) : Prop :=
   (∀ on dirs, n = Node.inline (some on) dirs → Validate.isComposite s on = true) ∧
   (∀ name dirs, n = Node.spread name dirs → name ∈ fragNames d)
 
-def dirOk1 (vars : Exec.Vars) (d : Exec.Dir) : Bool :=
-  if d.name == "skip" || d.name == "include" then
-    match d.cond with
-    | .lit _ => true
-    | .var v => (vars.get? v).isSome
-    | .bad => false
-  else true
-
-theorem dirsOk_iff (vars : Exec.Vars) (ds : List Exec.Dir) : Spec.dirsOk vars ds = true ↔ ∀ d ∈ ds, dirOk1 vars d = true := by
-  rw [Spec.dirsOk, List.all_eq_true]
-  exact Iff.rfl
-
 /-- schema facts the validator's model takes from a valid schema dumped WITH the built-in scalars -/
 structure SchemaWf (s : SchemaD) : Prop where
   outputs : ∀ T name fd, Validate.fieldOf s T name = some fd → Validate.isOutputTy s fd.type = true
@@ -134,11 +123,9 @@ mutual
 private theorem eSel_ok (s : SchemaD) (hs : SchemaWf s) (d : Validate.Doc) (docE : Exec.Doc) (vars : Exec.Vars)
     (hfr : ∀ name ∈ fragNames d, (docE.fragment? name).isSome = true) :
     ∀ (x : Validate.Sel) (v : View) (T : String), v.parent = some T → compositeBase s v.type = some T →
-      (∀ p ∈ tnSel s v x, TLocal s p) → (∀ n ∈ selNodes x, NLocal s d n) →
-      (∀ dr ∈ Spec.selDirs (eSel x), dirOk1 vars dr = true) → Spec.selOk s docE vars T (eSel x) = true
-  | .field alias name args dirs hsub ssid sub, v, T, hp, hc, hT, hN, hD => by
-    have hdirs : Spec.dirsOk vars (dirs.map eDir) = true :=
-      (dirsOk_iff vars _).mpr (fun dr hdr => hD dr (by simp [eSel, Spec.selDirs, hdr]))
+      (∀ p ∈ tnSel s v x, TLocal s p) → (∀ n ∈ selNodes x, NLocal s d n) → Spec.selOk s docE vars T (eSel x) = true
+  | .field alias name args dirs hsub ssid sub, v, T, hp, hc, hT, hN => by
+    have hdirs : Spec.dirsOk vars (dirs.map eDir) = true := rfl
     -- the field node with its context
     have hnode := hT (Node.field name args dirs hsub, View.enter s (Node.field name args dirs hsub) v) (by simp [tnSel])
       name args dirs hsub rfl
@@ -207,7 +194,6 @@ private theorem eSel_ok (s : SchemaD) (hs : SchemaWf s) (d : Validate.Doc) (docE
             exact eSels_ok s hs d docE vars hfr sub v2 fd.type.base hv2p hv2c
               (fun p hp' => hT p (by simp [tnSel, v1, v2]; right; right; right; exact Or.inr hp'))
               (fun n hn => hN n (by simp [selNodes]; right; right; right; exact Or.inr hn))
-              (fun dr hdr => hD dr (by simp [eSel, Spec.selDirs]; exact Or.inr hdr))
           cases k with
           | scalar => exact leafCase (by simp [Validate.isLeaf, hk])
           | enum => exact leafCase (by simp [Validate.isLeaf, hk])
@@ -215,14 +201,12 @@ private theorem eSel_ok (s : SchemaD) (hs : SchemaWf s) (d : Validate.Doc) (docE
           | interface => exact compCase (by simp [Validate.isComposite, hk])
           | union => exact compCase (by simp [Validate.isComposite, hk])
           | input => unfold Validate.isOutputTy at hout; simp [hk] at hout
-  | .spread name dirs, v, T, hp, hc, hT, hN, hD => by
-    have hdirs : Spec.dirsOk vars (dirs.map eDir) = true :=
-      (dirsOk_iff vars _).mpr (fun dr hdr => hD dr (by simp [eSel, Spec.selDirs, hdr]))
+  | .spread name dirs, v, T, hp, hc, hT, hN => by
+    have hdirs : Spec.dirsOk vars (dirs.map eDir) = true := rfl
     have := (hN (Node.spread name dirs) (by simp [selNodes])).2 name dirs rfl
     simp [eSel, Spec.selOk, hdirs, hfr name this]
-  | .inline on dirs ssid sub, v, T, hp, hc, hT, hN, hD => by
-    have hdirs : Spec.dirsOk vars (dirs.map eDir) = true :=
-      (dirsOk_iff vars _).mpr (fun dr hdr => hD dr (by simp [eSel, Spec.selDirs, hdr]))
+  | .inline on dirs ssid sub, v, T, hp, hc, hT, hN => by
+    have hdirs : Spec.dirsOk vars (dirs.map eDir) = true := rfl
     simp only [eSel, Spec.selOk, hdirs, Bool.true_and]
     have hvt : ∃ t, v.type = some t ∧ Validate.isComposite s t.base = true ∧ t.base = T := by
       cases ht : v.type with
@@ -244,7 +228,6 @@ private theorem eSel_ok (s : SchemaD) (hs : SchemaWf s) (d : Validate.Doc) (docE
       exact eSels_ok s hs d docE vars hfr sub v2 T hv2p hv2c
         (fun p hp' => hT p (by simp [tnSel, v1, v2]; right; right; exact Or.inr hp'))
         (fun n hn => hN n (by simp [selNodes]; right; right; exact Or.inr hn))
-        (fun dr hdr => hD dr (by simp [eSel, Spec.selDirs]; exact Or.inr hdr))
     | some c =>
       have hcc := (hN (Node.inline (some c) dirs) (by simp [selNodes])).1 c dirs rfl
       simp only [isComposite_compat s c hcc, Bool.true_and]
@@ -265,19 +248,15 @@ private theorem eSel_ok (s : SchemaD) (hs : SchemaWf s) (d : Validate.Doc) (docE
       exact eSels_ok s hs d docE vars hfr sub v2 c hv2p hv2c
         (fun p hp' => hT p (by simp [tnSel, v1, v2]; right; right; exact Or.inr hp'))
         (fun n hn => hN n (by simp [selNodes]; right; right; exact Or.inr hn))
-        (fun dr hdr => hD dr (by simp [eSel, Spec.selDirs]; exact Or.inr hdr))
 private theorem eSels_ok (s : SchemaD) (hs : SchemaWf s) (d : Validate.Doc) (docE : Exec.Doc) (vars : Exec.Vars)
     (hfr : ∀ name ∈ fragNames d, (docE.fragment? name).isSome = true) :
     ∀ (xs : List Validate.Sel) (v : View) (T : String), v.parent = some T → compositeBase s v.type = some T →
-      (∀ p ∈ tnSels s v xs, TLocal s p) → (∀ n ∈ selsNodes xs, NLocal s d n) →
-      (∀ dr ∈ Spec.selsDirs (eSels xs), dirOk1 vars dr = true) → Spec.selsOk s docE vars T (eSels xs) = true
-  | [], _, _, _, _, _, _, _ => by simp [eSels, Spec.selsOk]
-  | x :: xs, v, T, hp, hc, hT, hN, hD => by
+      (∀ p ∈ tnSels s v xs, TLocal s p) → (∀ n ∈ selsNodes xs, NLocal s d n) → Spec.selsOk s docE vars T (eSels xs) = true
+  | [], _, _, _, _, _, _ => by simp [eSels, Spec.selsOk]
+  | x :: xs, v, T, hp, hc, hT, hN => by
     simp only [eSels, Spec.selsOk, Bool.and_eq_true]
-    exact ⟨eSel_ok s hs d docE vars hfr x v T hp hc (fun p h => hT p (by simp [tnSels, h])) (fun n h => hN n (by simp [selsNodes, h]))
-             (fun dr h => hD dr (by simp [eSels, Spec.selsDirs, h])),
-           eSels_ok s hs d docE vars hfr xs v T hp hc (fun p h => hT p (by simp [tnSels, h])) (fun n h => hN n (by simp [selsNodes, h]))
-             (fun dr h => hD dr (by simp [eSels, Spec.selsDirs, h]))⟩
+    exact ⟨eSel_ok s hs d docE vars hfr x v T hp hc (fun p h => hT p (by simp [tnSels, h])) (fun n h => hN n (by simp [selsNodes, h])),
+           eSels_ok s hs d docE vars hfr xs v T hp hc (fun p h => hT p (by simp [tnSels, h])) (fun n h => hN n (by simp [selsNodes, h]))⟩
 end
 
 
@@ -286,9 +265,6 @@ end
 /-- the clauses of `ValidDoc` for which C06 has no proved rule equivalence: they remain hypotheses of the bridge and rest
     on the run-time tie of harness/corr/C05.py (`validate_ast` accepted ⇒ `ValidDoc`, checked on every accepted document) -/
 structure RuntimeTie (s : SchemaD) (d : Validate.Doc) (vars : Exec.Vars) : Prop where
-  /-- @skip/@include conditions: ValuesOfCorrectType, VariablesInAllowedPosition, NoUndefinedVariables, KnownDirectives,
-      and the variables having a coerced value -/
-  dirs : ∀ dr ∈ Spec.docDirs (eDoc d), dirOk1 vars dr = true
   /-- every operation has a root object type (`get_operation_with_type`) -/
   roots : ∀ x ∈ d.defs, ∀ k n vs ds i ss, x = Validate.Def.op k n vs ds i ss → ∃ r, Validate.rootType s k = some r
   /-- no `__schema` / `__type` selections (introspection belongs to C15) -/
@@ -297,8 +273,7 @@ structure RuntimeTie (s : SchemaD) (d : Validate.Doc) (vars : Exec.Vars) : Prop 
   acyclic : Spec.fragsAcyclic (eDoc d) = true
 
 def RuntimeTieClauses : List String :=
-  ["skip/include conditions well-typed and bound (ValuesOfCorrectType, VariablesInAllowedPosition, NoUndefinedVariables, KnownDirectives)",
-   "operations have a root object type", "no __schema/__type selections", "NoFragmentCycles (fragsAcyclic)",
+  ["operations have a root object type", "no __schema/__type selections", "NoFragmentCycles (fragsAcyclic)",
    "MergeSafe (OverlappingFieldsCanBeMerged, declarative; `mergeSafeB` evaluated by the driver on every accepted document) — separate hypothesis of validated_no_internal_error"]
 
 private theorem frags_names (d : Validate.Doc) : (eDoc d).frags.map (·.name) = fragNames d := by
@@ -384,7 +359,7 @@ theorem rules_accept_validDoc (s : SchemaD) (hs : SchemaWf s) (fx : Validate.Fix
         simpa [Ty.base] using compositeBase_some s (Ty.named r) (by simpa [Ty.base] using hcomp)
       have hv2p : v2.parent = some r := by simp [v2, View.enter, hv1t, hcb]
       have hv2c : compositeBase s v2.type = some r := by simp [v2, View.enter, hv1t, hcb]
-      refine eSels_ok s hs d (eDoc d) vars hfr sels v2 r hv2p hv2c ?_ ?_ ?_
+      refine eSels_ok s hs d (eDoc d) vars hfr sels v2 r hv2p hv2c ?_ ?_
       · intro p hp
         apply hT p
         unfold typedNodes
@@ -395,11 +370,6 @@ theorem rules_accept_validDoc (s : SchemaD) (hs : SchemaWf s) (fx : Validate.Fix
         unfold nodes
         simp only [List.mem_cons, List.mem_flatMap]
         exact Or.inr ⟨_, hx, by simp [defNodes]; right; right; right; exact Or.inr hn⟩
-      · intro dr hdr
-        apply rt.dirs dr
-        unfold Spec.docDirs eDoc
-        simp only [List.mem_append, List.mem_flatMap, List.mem_filterMap]
-        exact Or.inl ⟨_, ⟨_, hx, rfl⟩, hdr⟩
     | frag => simp [eOp] at hxo
     | ts => simp [eOp] at hxo
   · -- fragment definitions
@@ -434,7 +404,7 @@ theorem rules_accept_validDoc (s : SchemaD) (hs : SchemaWf s) (fx : Validate.Fix
         simpa [Ty.base] using compositeBase_some s (Ty.named on) (by simpa [Ty.base] using hcc)
       have hv2p : v2.parent = some on := by simp [v2, View.enter, hv1t, hcb]
       have hv2c : compositeBase s v2.type = some on := by simp [v2, View.enter, hv1t, hcb]
-      refine eSels_ok s hs d (eDoc d) vars hfr sels v2 on hv2p hv2c ?_ ?_ ?_
+      refine eSels_ok s hs d (eDoc d) vars hfr sels v2 on hv2p hv2c ?_ ?_
       · intro p hp
         apply hT p
         unfold typedNodes
@@ -445,11 +415,6 @@ theorem rules_accept_validDoc (s : SchemaD) (hs : SchemaWf s) (fx : Validate.Fix
         unfold nodes
         simp only [List.mem_cons, List.mem_flatMap]
         exact Or.inr ⟨_, hx, by simp [defNodes]; right; right; exact Or.inr hn⟩
-      · intro dr hdr
-        apply rt.dirs dr
-        unfold Spec.docDirs eDoc
-        simp only [List.mem_append, List.mem_flatMap, List.mem_filterMap]
-        exact Or.inr ⟨_, ⟨_, hx, rfl⟩, hdr⟩
     | op => simp [eFrag] at hxf
     | ts => simp [eFrag] at hxf
   · -- unique fragment names
